@@ -321,6 +321,26 @@ def shape_scan(chk, repo, clause, modules, skip=()):
     return n
 
 
+def self_delegation_forwards(chk, repo, clause, keys):
+    """A function that re-enters itself (e.g. on a converted copy) hands over every one of its own
+    parameters: one that is left out silently falls back to its default on that path only."""
+    from .. import bind
+    for key in keys:
+        f = repo.func(key)
+        n = 0
+        for s in bind.sites(repo, f):
+            if s.callee.key != f.key:
+                continue
+            n += 1
+            params = [p for p, d, k in f.params() if p != 'self' and k in ('pos', 'kwonly')]
+            missing = [p for p in params if p not in s.binding and not s.star]
+            chk.ob(clause, 'B6-forward', key, f'self-delegation at line {s.node.lineno} forwards every parameter', not missing,
+                   ('not forwarded: ' + ', '.join(missing) + ' (the inner call uses the default)') if missing else
+                   f'{len(params)} parameter(s) forwarded', s.loc())
+        if n == 0:
+            chk.undecided(clause, 'B6-forward', key, 'self-delegation forwards every parameter', 'no self-delegation found', f.loc())
+
+
 def loop_accumulator(p, value):
     """(loop info, variable name) of the loop-carried variable that ``value`` (a loop phi atom) denotes on
     path p, whatever the variable is called; (None, None) if it is not a loop-carried variable."""
